@@ -949,9 +949,10 @@ Proof.
   - rewrite H. reflexivity.
 Qed.
 
-Theorem step_sim_lemma w qs o : winv w -> wref w qs -> sim_goal (step w o) (spec_step qs o).
+(* every operation but a hint that cannot be followed *)
+Lemma step_sim_plain w qs o : winv w -> wref w qs -> hint_unsat o = false -> sim_goal (step w o) (spec_step qs o).
 Proof.
-  intros Iw Rw. pose proof (F2_length _ _ _ Rw) as Hlen.
+  intros Iw Rw Hh. pose proof (F2_length _ _ _ Rw) as Hlen.
   unfold step, spec_step. destruct (data_ok o) eqn:D; cbn [negb]; [|reflexivity].
   destruct o as [ |n|d|x|v d|v x|v d|v d|v x|v d|v x|v n|v n|v n|v n|v|v|v x|v x|v off n|v off n|v off n];
     cbn [data_ok] in D; try (apply fits_small in D).
@@ -1057,8 +1058,11 @@ Proof.
     intros b' (t & H2 & H3 & H4 & _). split; [exact H2|]. eapply ref_eq; [exact H3|].
     apply cr_resize; [exact Rb|]. rewrite exposed_length by exact Ib. exact H4.
   - (* OReserve *)
-    apply (on1_sim w qs v (fun b => reserve_ b n) (fun _ => n) (fun q => q) Iw Rw).
-    intros b q Ib Rb. eapply okun_ref; [exact Rb|apply reserve_ok; exact Ib].
+    cbn [hint_unsat] in Hh. apply negb_false_iff in Hh.
+    apply (on1_sim w qs v (fun b => reserve_ b n) (fun _ => 0%N) (fun q => q) Iw Rw).
+    intros b q Ib Rb. apply okun_zero.
+    pose proof (reserve_ok b n Ib) as R. unfold okun in R. rewrite Hh in R. destruct R as (b' & H1 & H2 & H3).
+    exists b'. split; [exact H1|split; [exact H2|]]. eapply ref_eq; [exact H3|exact Rb].
   - (* ORemoveFront *)
     apply (on1_sim w qs v (fun b => remove_front v b n) (fun _ => 0%N)
              (fun q => if (len q <=? n)%N then [] else skipn (N.to_nat n) q) Iw Rw).
@@ -1118,31 +1122,84 @@ Proof.
     + unfold len. rewrite (ref_len b q Ib Rb). lia.
 Qed.
 
+(* a hint that cannot be followed: the reference keeps every queue, the model (like the code) ends in a
+   failed allocation *)
+Lemma step_hint w qs o : winv w -> wref w qs -> hint_unsat o = true ->
+  match spec_step qs o with
+  | SOk (qs', a') => qs' = qs /\ a' = None /\ step w o = Err AllocFail
+  | SReject => step w o = Err BadArg
+  | SUnsat => False
+  end.
+Proof.
+  intros Iw Rw Hh. destruct o; try discriminate Hh. cbn [hint_unsat] in Hh. apply negb_true_iff in Hh.
+  unfold step, spec_step. cbn [data_ok negb]. pose proof (get_sim w qs v Iw Rw) as G. unfold on1.
+  destruct (nth_error qs v) as [q|] eqn:Eq.
+  - destruct G as (b & Hg & Ib & Rb). change (fitsN 0) with true. cbn iota.
+    split; [apply upd_same; exact Eq|]. split; [reflexivity|].
+    rewrite Hg. cbn [bind]. pose proof (reserve_ok b n Ib) as R. unfold okun in R. rewrite Hh in R.
+    unfold ret1. rewrite R. reflexivity.
+  - rewrite G. reflexivity.
+Qed.
+
+Definition step_goal (o : op) (r : res (world * option bool)) (s : sstep) : Prop :=
+  match s with
+  | SOk (qs', a') => if hint_unsat o then r = Err AllocFail
+                     else exists w' a, r = Ok (w', a) /\ winv w' /\ wref w' qs' /\ ans_ref a a'
+  | SReject => r = Err BadArg
+  | SUnsat => r = Err AllocFail
+  end.
+
+Theorem step_sim_lemma w qs o : winv w -> wref w qs -> step_goal o (step w o) (spec_step qs o).
+Proof.
+  intros Iw Rw. unfold step_goal. destruct (hint_unsat o) eqn:Hh.
+  - pose proof (step_hint w qs o Iw Rw Hh) as S.
+    destruct (spec_step qs o) as [[qs1 a1']| |]; [destruct S as (_ & _ & S); exact S|exact S|contradiction].
+  - pose proof (step_sim_plain w qs o Iw Rw Hh) as S. unfold sim_goal in S.
+    destruct (spec_step qs o) as [[qs1 a1']| |]; exact S.
+Qed.
+
 (* ---- histories ------------------------------------------------------------------------------ *)
 
-Definition run_goal (r : res (world * list (option bool))) (s : sres (list queue * list (option bool))) : Prop :=
+(* the reference goes on after a hint that cannot be followed, the model stops there *)
+Definition run_goal (ops : list op) (r : res (world * list (option bool))) (s : sres (list queue * list (option bool))) : Prop :=
+  (r = Err AllocFail /\ existsb hint_unsat ops = true) \/
   match s with
   | SOk (qs', rs') => exists w' rs, r = Ok (w', rs) /\ winv w' /\ wref w' qs' /\ Forall2 ans_ref rs rs'
   | SReject => r = Err BadArg
   | SUnsat => r = Err AllocFail
   end.
 
-Lemma run_sim_lemma ops : forall w qs, winv w -> wref w qs -> run_goal (run w ops) (spec_run qs ops).
+Lemma run_sim_lemma ops : forall w qs, winv w -> wref w qs -> run_goal ops (run w ops) (spec_run qs ops).
 Proof.
   induction ops as [|o rest IH]; intros w qs Iw Rw; cbn [run spec_run].
-  - exists w, []. auto.
-  - pose proof (step_sim_lemma w qs o Iw Rw) as S. unfold sim_goal in S.
+  - right. exists w, []. auto.
+  - pose proof (step_sim_lemma w qs o Iw Rw) as S. unfold step_goal in S.
     destruct (spec_step qs o) as [[qs1 a1']| |].
-    + destruct S as (w1 & a1 & H1 & Iw1 & Rw1 & Ha1). rewrite H1. cbn [bind fst snd].
-      pose proof (IH w1 qs1 Iw1 Rw1) as R. unfold run_goal in R.
-      destruct (spec_run qs1 rest) as [[qs2 rs2']| |].
-      * destruct R as (w2 & rs2 & H2 & Iw2 & Rw2 & Hrs). rewrite H2. cbn [bind fst snd].
-        exists w2, (a1 :: rs2). split; [reflexivity|split; [exact Iw2|split; [exact Rw2|]]].
-        constructor; assumption.
-      * rewrite R. reflexivity.
-      * rewrite R. reflexivity.
-    + rewrite S. reflexivity.
-    + rewrite S. reflexivity.
+    + destruct (hint_unsat o) eqn:Hh.
+      * left. rewrite S. split; [reflexivity|]. cbn [existsb]. rewrite Hh. reflexivity.
+      * destruct S as (w1 & a1 & H1 & Iw1 & Rw1 & Ha1). rewrite H1. cbn [bind fst snd].
+        pose proof (IH w1 qs1 Iw1 Rw1) as R. unfold run_goal in R.
+        destruct R as [[R1 R2]|R].
+        { left. rewrite R1. split; [reflexivity|]. cbn [existsb]. rewrite R2. apply orb_true_r. }
+        right. destruct (spec_run qs1 rest) as [[qs2 rs2']| |].
+        -- destruct R as (w2 & rs2 & H2 & Iw2 & Rw2 & Hrs). rewrite H2. cbn [bind fst snd].
+           exists w2, (a1 :: rs2). split; [reflexivity|split; [exact Iw2|split; [exact Rw2|]]].
+           constructor; assumption.
+        -- rewrite R. reflexivity.
+        -- rewrite R. reflexivity.
+    + right. rewrite S. reflexivity.
+    + right. rewrite S. reflexivity.
+Qed.
+
+(* histories without such a hint: the reference decides the outcome *)
+Lemma run_sim_nohint_lemma ops w qs : winv w -> wref w qs -> existsb hint_unsat ops = false ->
+  match spec_run qs ops with
+  | SOk (qs', rs') => exists w' rs, run w ops = Ok (w', rs) /\ winv w' /\ wref w' qs' /\ Forall2 ans_ref rs rs'
+  | SReject => run w ops = Err BadArg
+  | SUnsat => run w ops = Err AllocFail
+  end.
+Proof.
+  intros Iw Rw Hn. destruct (run_sim_lemma ops w qs Iw Rw) as [[_ H]|H]; [congruence|exact H].
 Qed.
 
 Lemma wref_self w : wref w (map exposed w).
@@ -1154,9 +1211,9 @@ Inductive reachable : world -> Prop :=
 
 Lemma step_inv_lemma w o w' a : winv w -> step w o = Ok (w', a) -> winv w'.
 Proof.
-  intros Iw H. pose proof (step_sim_lemma w (map exposed w) o Iw (wref_self w)) as S. unfold sim_goal in S.
+  intros Iw H. pose proof (step_sim_lemma w (map exposed w) o Iw (wref_self w)) as S. unfold step_goal in S.
   destruct (spec_step (map exposed w) o) as [[qs1 a1']| |].
-  - destruct S as (w1 & a1 & H1 & Iw1 & _). congruence.
+  - destruct (hint_unsat o); [congruence|]. destruct S as (w1 & a1 & H1 & Iw1 & _). congruence.
   - congruence.
   - congruence.
 Qed.
@@ -1166,15 +1223,19 @@ Proof.
   induction 1 as [|w o w' a Hr IH Hs]; [constructor|]. eapply step_inv_lemma; eassumption.
 Qed.
 
-(* the only errors: a history without meaning, and a request that cannot be satisfied *)
+(* the only errors: a history without meaning, and a request that cannot be satisfied (which the reference
+   either names SUnsat or, for a hint, leaves open) *)
 Lemma step_safe_lemma w o e : winv w -> step w o = Err e ->
-  (e = BadArg /\ spec_step (map exposed w) o = SReject) \/ (e = AllocFail /\ spec_step (map exposed w) o = SUnsat).
+  (e = BadArg /\ spec_step (map exposed w) o = SReject) \/
+  (e = AllocFail /\ (spec_step (map exposed w) o = SUnsat \/ hint_unsat o = true)).
 Proof.
-  intros Iw H. pose proof (step_sim_lemma w (map exposed w) o Iw (wref_self w)) as S. unfold sim_goal in S.
+  intros Iw H. pose proof (step_sim_lemma w (map exposed w) o Iw (wref_self w)) as S. unfold step_goal in S.
   destruct (spec_step (map exposed w) o) as [[qs1 a1']| |].
-  - destruct S as (w1 & a1 & H1 & _). congruence.
+  - destruct (hint_unsat o).
+    + right. split; [congruence|right; reflexivity].
+    + destruct S as (w1 & a1 & H1 & _). congruence.
   - left. split; [congruence|reflexivity].
-  - right. split; [congruence|reflexivity].
+  - right. split; [congruence|left; reflexivity].
 Qed.
 
 Lemma run_reachable_lemma ops : forall w w' rs, reachable w -> run w ops = Ok (w', rs) -> reachable w'.
@@ -1188,13 +1249,16 @@ Proof.
 Qed.
 
 Lemma run_safe_lemma ops e : run [] ops = Err e ->
-  (e = BadArg /\ spec_run [] ops = SReject) \/ (e = AllocFail /\ spec_run [] ops = SUnsat).
+  (e = BadArg /\ spec_run [] ops = SReject) \/
+  (e = AllocFail /\ (spec_run [] ops = SUnsat \/ existsb hint_unsat ops = true)).
 Proof.
   intro H. pose proof (run_sim_lemma ops [] [] (Forall_nil _) (Forall2_nil _)) as R. unfold run_goal in R.
+  destruct R as [[R1 R2]|R].
+  { right. split; [congruence|right; exact R2]. }
   destruct (spec_run [] ops) as [[qs rs]| |].
   - destruct R as (w' & rs' & H1 & _). congruence.
   - left. split; [congruence|reflexivity].
-  - right. split; [congruence|reflexivity].
+  - right. split; [congruence|left; reflexivity].
 Qed.
 
 Lemma terminator_lemma w b : reachable w -> In b w -> owns b = true ->
